@@ -2273,12 +2273,36 @@ static int add_mapping_entry(vnaproperty_yaml_t *vymlp, int t_map,
  *   @rootptr:  address of property tree root
  *   @vp_node:  yaml node cast to void pointer
  */
+static int yaml_import(vnaproperty_yaml_t *vymlp,
+	vnaproperty_t **rootptr, yaml_node_t *node, long depth);
+
 int _vnaproperty_yaml_import(vnaproperty_yaml_t *vymlp,
 	vnaproperty_t **rootptr, void *vp_node)
 {
-    yaml_document_t *document = vymlp->vyml_document;
-    yaml_node_t *node = vp_node;
+    return yaml_import(vymlp, rootptr, vp_node, 0);
+}
 
+/*
+ * yaml_import: recursive part of _vnaproperty_yaml_import
+ *   @depth: number of enclosing collections
+ */
+static int yaml_import(vnaproperty_yaml_t *vymlp,
+	vnaproperty_t **rootptr, yaml_node_t *node, long depth)
+{
+    yaml_document_t *document = vymlp->vyml_document;
+
+    /*
+     * An alias may refer to a collection that contains it.  A path
+     * through a document without such a cycle cannot be longer than the
+     * number of nodes.
+     */
+    if (depth > document->nodes.top - document->nodes.start) {
+	_vnaproperty_yaml_error(vymlp, VNAERR_SYNTAX,
+		"%s (line %ld) error: alias refers to a collection "
+		"that contains it", vymlp->vyml_filename,
+		(long)node->start_mark.line + 1);
+	return -1;
+    }
     switch (node->type) {
     case YAML_SCALAR_NODE:
 	/*
@@ -2343,7 +2367,7 @@ int _vnaproperty_yaml_import(vnaproperty_yaml_t *vymlp,
 		    }
 		    goto out;
 		}
-		if (_vnaproperty_yaml_import(vymlp, subtree, value) == -1) {
+		if (yaml_import(vymlp, subtree, value, depth + 1) == -1) {
 		    goto out;
 		}
 	    }
@@ -2374,7 +2398,7 @@ int _vnaproperty_yaml_import(vnaproperty_yaml_t *vymlp,
 			    vymlp->vyml_filename, strerror(errno));
 		    goto out;
 		}
-		if (_vnaproperty_yaml_import(vymlp, subtree, value) == -1) {
+		if (yaml_import(vymlp, subtree, value, depth + 1) == -1) {
 		    goto out;
 		}
 	    }
